@@ -503,6 +503,65 @@ def replay_accept(case):
         raise Violation(f"C12/accept_race/{kinds}", dict(leaks=leaks))
 
 
+# ---------------------------------------------------------------- the peer vanishes while the session is flushing its last replies
+async def _drain(loop, how, nreplies, vanish_after, mode):
+    """QUIT (or another session-ending reply) is queued behind replies that are still being written - slowly, because of a
+    write speed limit, or not at all, because the peer does not read - and then the peer disappears."""
+    kw = dict(write_speed_limit=20) if mode == "throttled" else {}
+    server = aioftp.Server(path_io_factory=aioftp.MemoryPathIO, wait_future_timeout=2, data_ports=[40100, 40101],
+                           maximum_connections=2, **kw)
+    await server.start(harness.HOST, PORT)
+    r, w = await asyncio.open_connection(harness.HOST, PORT)
+    await asyncio.sleep(0.1)
+    if mode == "not_reading":
+        w.transport.pause_reading()
+        filler = ("X" * 30000 + "\r\n") * nreplies  # unknown verbs, echoed in long 502 replies nobody reads
+    else:
+        filler = "PWD\r\n" * nreplies
+    w.write(("USER anonymous\r\nPASV\r\n" + filler + "QUIT\r\n").encode())
+    await asyncio.sleep(vanish_after)
+    state = _nontrivial_state(server)
+    pending_replies = any(not c_["response"] is None for c_ in server.connections.values()) and len(server.connections) > 0
+    if how == "rst":
+        w.transport.abort()
+    else:
+        w.close()
+    await asyncio.sleep(10)
+    leaks = ledger(loop, server, PORT)
+    pool = sorted(p_ for _pr, p_ in server.available_data_ports._queue)
+    if pool != [40100, 40101]:
+        leaks["port_pool"] = pool
+    if server.available_connections.value != 2:
+        leaks["server_connection_slots"] = server.available_connections.value
+    closer = asyncio.ensure_future(server.close())
+    done, pending = await asyncio.wait([closer], timeout=100000)
+    if pending:
+        leaks["server_close_hangs"] = True
+    await asyncio.sleep(2)
+    for key, v in ledger(loop, server, PORT, expect_main_listener=False).items():
+        leaks.setdefault("after_close." + key, v)
+    return leaks, pending_replies
+
+
+def part_drain(ctx):
+    cases = [(how, n, after, mode) for how in ("rst", "fin") for mode in ("throttled", "not_reading") for n in (1, 3, 40)
+             for after in (0.01, 0.5, 3.0)]
+    for how, n, after, mode in cases[ctx.shard::ctx.nshards]:
+        leaks, pend = simnet.run(lambda loop: _drain(loop, how, n, after, mode))
+        ctx.count(("drain", how, n, after, mode), pend, sample=dict(peer_ends_with=how, replies_queued_before_QUIT=n, vanishes_after=after,
+                                                                   why_replies_are_pending=mode), classes=["drain_" + mode])
+        if leaks:
+            kinds = "+".join(sorted(x.replace("after_close.", "") for x in leaks))
+            ctx.fail(f"C12/drain/{kinds}", dict(kind="drain", how=how, n=n, after=after, mode=mode), dict(leaks=leaks))
+
+
+def replay_drain(case):
+    leaks, _ = simnet.run(lambda loop: _drain(loop, case["how"], case["n"], case["after"], case["mode"]))
+    if leaks:
+        kinds = "+".join(sorted(x.replace("after_close.", "") for x in leaks))
+        raise Violation(f"C12/drain/{kinds}", dict(leaks=leaks))
+
+
 def part_calibrate(ctx):
     """Thorough tier only: the repository's own suite must still pass on simnet (fidelity of the network model)."""
     from vlib import calibrate
@@ -518,7 +577,7 @@ def part_calibrate(ctx):
 
 
 def plan(tier):
-    p = [("enumerate", 16), ("align", 8), ("pstart", 4), ("accept", 4), ("tapes", 8 if tier == "quick" else 16)]
+    p = [("enumerate", 16), ("align", 8), ("pstart", 4), ("accept", 4), ("drain", 4), ("tapes", 8 if tier == "quick" else 16)]
     if tier == "thorough":
         p.append(("calibrate", 1))
     return p
